@@ -83,12 +83,27 @@ Definition oracle_write (v : jv) : jv :=
   let c06 := if faulted then pys "ok"
              else c06_verdict before after e (as_bool (jfield "valid" v)) (as_bool (jfield "can" v)) out
                               (as_bool (jfield "notified" v)) in
-  JArr (add_if (accepted && negb (c09_removes_older sb sa e)) "replace_keeps_older"
+  (* trace shape (C07): begin first; a notification only as the last step, directly after the commit *)
+  let tk := map as_str (as_arr (jfield "trace_kinds" v)) in
+  let is_k (s : string) (x : pystr) := str_eqb x (pys s) in
+  let notify_ok := match rev tk with
+                   | a :: b :: rest => if is_k "notify" a then is_k "commit" b && negb (existsb (is_k "notify") rest)
+                                       else negb (existsb (is_k "notify") (b :: rest))
+                   | l => negb (existsb (is_k "notify") l)
+                   end in
+  let one_txn := match tk with
+                 | [] => true
+                 | b :: rest => is_k "begin" b && negb (existsb (is_k "begin") rest) &&
+                                (Nat.eqb (length (List.filter (fun x => is_k "commit" x || is_k "rollback" x) rest)) 1)
+                 end in
+  JArr (add_if (negb notify_ok) "notify_before_commit"
+       (add_if (negb one_txn) "not_one_transaction"
+       (add_if (accepted && negb (c09_removes_older sb sa e)) "replace_keeps_older"
        (add_if (negb (c09_frame sb sa e)) "store_frame_broken"
        (add_if (accepted && (w_kind e =? 5) && negb (c08_effective sb sa e)) "delete_ineffective"
        (add_if (negb (tags_coherent_b after)) "tags_incoherent"
        (add_if (faulted && negb (db_same before after && negb (as_bool (jfield "notified" v)))) "non_atomic"
-       (if str_eqb c06 (pys "ok") then [] else [JStr c06])))))).
+       (if str_eqb c06 (pys "ok") then [] else [JStr c06])))))))).
 
 (* {before, after, now} for a collector pass *)
 Definition oracle_gc (v : jv) : jv :=
@@ -136,7 +151,7 @@ Definition req_jv (v : jv) : jv :=
         ("matching", JArr (map (fun r => JArr [JBytes (r_id r); JInt (r_created r)]) (sort_desc (matching d (q_where q)))));
         ("limit", JInt (q_limit q))].
 
-(* {store : dump, answer : [row...] as served, filters, max_limit, executable : bool} -> violated classifiers *)
+(* {store : dump, answer : [row...] as served, filters, max_limit (configured), import_max_limit} -> violated classifiers *)
 Definition has_nul (s : pystr) : bool := existsb (N.eqb 0) s.
 Definition filter_has_nul (f : filter) : bool :=
   existsb (fun nv => has_nul (fst nv) || existsb has_nul (snd nv)) (f_tags f).
@@ -151,8 +166,10 @@ Definition oracle_req (v : jv) : jv :=
              | [f] => c02_ok_single ml store ans f
              | _ => c02_ok_multi ml store ans fs
              end in
+  let qlim := query_limit ml (as_int (jfield "import_max_limit" v)) fs in
   let c02cls := if existsb filter_has_nul fs then "sql_value_contains_nul"
                 else if existsb no_conditions fs then "sql_filter_without_conditions"
+                else if Nat.ltb 1 (length fs) && (Z.of_nat (length ans) =? qlim) then "sql_multi_filter_limit"
                 else "sql_incomplete" in
   let c12 := match fs with
              | [f] => c12_ok_single ml store ans f
